@@ -62,6 +62,13 @@ func (p Persist) Store(ctx context.Context, name string, bytes []byte) error {
 //	p := NewPersistForPath("/var/db/users")
 //	err, blob := p.load("98ea6e4f216f2fb4b69fff9b3a44842c38686ca685f3f55dc48c5d3fb1107be4")
 func NewPersistForPath(path string) Persist {
+	// resolve the directory once: a relative path must keep naming the
+	// same directory (and the same NodeURLPrefix) if the process changes
+	// its working directory, and "" is the current directory, also for
+	// the temporary files
+	if abs, err := filepath.Abs(path); err == nil {
+		path = abs
+	}
 	return Persist{path}
 }
 
